@@ -50,6 +50,16 @@ class ExcValue:
     return 'ExcValue(%s)' % self.names[0]
 
 
+class Closure:
+  """a function defined inside the interpreted function"""
+
+  def __init__(self, node, env):
+    self.node, self.env = node, env
+
+  def __repr__(self):
+    return 'Closure(%s)' % self.node.name
+
+
 class _Return(Exception):
   def __init__(self, v):
     self.v = v
@@ -307,6 +317,9 @@ class Interp:
           self.block(s.finalbody)
       return
     if isinstance(s, ast.Assert):
+      return
+    if isinstance(s, ast.FunctionDef) and not s.decorator_list:
+      self.env[s.name] = Closure(s, self.env)
       return
     raise Undecided('statement %s' % type(s).__name__)
 
@@ -784,10 +797,48 @@ class Interp:
           return self.invoke(g, [recv] + args, kwargs, e)
       raise Undecided('method %s of %r' % (f.attr, recv))
     if isinstance(f, ast.Name) and f.id in self.env:
-      r = self.world.call(self, '()', self.env[f.id], args, kwargs, e)
+      callee = self.env[f.id]
+      if isinstance(callee, Closure):
+        return self.call_closure(callee, args, kwargs, e)
+      r = self.world.call(self, '()', callee, args, kwargs, e)
       if r is not NotImplemented:
         return r
+    if isinstance(f, ast.Lambda) or (isinstance(f, ast.Name) and False):
+      raise Undecided('lambda call')
     raise Undecided('call %s' % ast.unparse(f)[:50])
+
+  def call_closure(self, c, args, kwargs, node):
+    depth = getattr(self, 'depth', 0)
+    if depth >= 6:
+      raise Undecided('call depth')
+    a = c.node.args
+    if a.vararg or a.kwarg or a.posonlyargs or a.kwonlyargs:
+      raise Undecided('signature of closure %s' % c.node.name)
+    names = [x.arg for x in a.args]
+    if len(args) > len(names):
+      raise Raised(['TypeError'], node)
+    env = dict(c.env)             # reads of the enclosing scope
+    env.update(zip(names, args))
+    for k, v in kwargs.items():
+      if k not in names:
+        raise Raised(['TypeError'], node)
+      env[k] = v
+    for nm, dv in zip(names[len(names) - len(a.defaults):], a.defaults):
+      if nm not in env or nm not in list(names[:len(args)]) + list(kwargs):
+        env.setdefault(nm, self.ev(dv))
+    sub = Interp(self.repo, self.func, self.world, ())
+    sub.depth = depth + 1
+    sub.fuel = self.fuel
+    sub.choices = self.choices
+    sub.taken = self.taken
+    sub.env = env
+    try:
+      sub.block(c.node.body)
+      res = None
+    except _Return as r:
+      res = r.v
+    self.fuel = sub.fuel
+    return res
 
   def invoke(self, g, args, kwargs, node):
     """interpret a function of the repository with the same world"""
@@ -827,6 +878,16 @@ class Interp:
     if out[0] == 'raise':
       raise Raised(out[1], out[2])
     return out[1]
+
+  def call_value(self, callee, args, kwargs, node):
+    """call a first-class value (closure, or a symbolic callable through the
+    world)"""
+    if isinstance(callee, Closure):
+      return self.call_closure(callee, args, kwargs, node)
+    r = self.world.call(self, '()', callee, args, kwargs, node)
+    if r is NotImplemented:
+      raise Undecided('call of %r' % (callee,))
+    return r
 
   def builtin(self, name, args, kwargs, node):
     if name == 'len' and len(args) == 1:
